@@ -1,6 +1,9 @@
 package c12
 
-// Pinned deviations (see findings_test.go): "<type>|<field class>|<operator group>|<failure kind>",
+// Pinned deviations (see findings_test.go) - EMPTY since /repo 043d51a: all 340 placements collected on ead8bd4
+// (126 decoders panicking on 55799(null), missing / null / wrong-type fields, zero prime factors, ...) were
+// repaired by the nine `fix:` commits 479adeb..043d51a (known_findings.json, C12-* entries of kind fixed).
+// Format of an entry, should one ever be needed again: "<type>|<field class>|<operator group>|<failure kind>",
 // collected with VERIF_C12_COLLECT=1 and an empty list on /repo ead8bd4, with the smallest example
 // seen. Field class: the path of the altered value inside the valid encoding (map keys by name,
 // array items as *, tag contents as @tag; "" is the whole value); "*" for the two groups that are
@@ -12,345 +15,4 @@ package c12
 // wrapped in tag 55799; array-length = array truncated / extended by one element; altered-value =
 // a leaf altered (bit flip, zeroed, +-1, copied). Failure kinds: panic; invalid-object = the decoder
 // returns an object its constructor would refuse; not-reencodable.
-var pinned = []string{
-	"bls.ProofOfPossession|*|selfdescribed-null|panic",                                                                              // e.g. selfdescribed-null@ d9d9f7f6
-	"bls.ProofOfPossession|/v|missing-field|panic",                                                                                  // e.g. dropkey@/v a0
-	"bls.ProofOfPossession|/v|null-field|panic",                                                                                     // e.g. null@/v a16176f6
-	"bls.ProofOfPossession||wrong-type-field|panic",                                                                                 // e.g. emptymap@ a0
-	"bls.PublicKey|*|selfdescribed-null|invalid-object",                                                                             // e.g. selfdescribed-null@ d9d9f7f6
-	"bls.PublicKey|*|selfdescribed-null|panic",                                                                                      // e.g. selfdescribed-null@/V a16156d9d9f7f6
-	"bls.PublicKey|/V|missing-field|invalid-object",                                                                                 // e.g. dropkey@/V a0
-	"bls.PublicKey|/V|null-field|invalid-object",                                                                                    // e.g. null@/V a16156f6
-	"bls.PublicKey||wrong-type-field|invalid-object",                                                                                // e.g. emptymap@ a0
-	"bls.PublicMaterial|*|selfdescribed-null|panic",                                                                                 // e.g. selfdescribed-null@/base a16462617365d9d9f7f6
-	"bls.Shard|*|selfdescribed-null|panic",                                                                                          // e.g. selfdescribed-null@/base a16462617365d9d9f7f6
-	"bls.Shard|/base/publicMaterial|null-field|panic",                                                                               // e.g. null@/base/publicMaterial a16462617365a2657368..657269616cf6(87)
-	"bls.Signature|*|selfdescribed-null|panic",                                                                                      // e.g. selfdescribed-null@ d9d9f7f6
-	"bls.Signature|/pop/v|missing-field|panic",                                                                                      // e.g. dropkey@/pop/v a26176a16f636f6d7072..b263706f70a0(123)
-	"bls.Signature|/pop/v|null-field|panic",                                                                                         // e.g. null@/pop/v a26176a16f636f6d7072..6f70a16176f6(126)
-	"bls.Signature|/pop|selfdescribed-wrap|panic",                                                                                   // e.g. selfdescribed@/pop a26176a16f636f6d7072..6f70d9d9f7f6(78)
-	"bls.Signature|/pop|wrong-type-field|panic",                                                                                     // e.g. emptymap@/pop a26176a16f636f6d7072..b263706f70a0(123)
-	"bls.Signature|/v|missing-field|panic",                                                                                          // e.g. dropkey@/v a163706f70a16176a16f..fcc9dcf48ca1(123)
-	"bls.Signature|/v|null-field|panic",                                                                                             // e.g. null@/v a26176f663706f70a161..fcc9dcf48ca1(126)
-	"bls.Signature||wrong-type-field|panic",                                                                                         // e.g. emptymap@ a0
-	"bls12381.BaseFieldElementG1|*|selfdescribed-null|panic",                                                                        // e.g. selfdescribed-null@ d9d9f7f6
-	"bls12381.BaseFieldElementG2|*|selfdescribed-null|panic",                                                                        // e.g. selfdescribed-null@ d9d9f7f6
-	"bls12381.PointG1|*|selfdescribed-null|panic",                                                                                   // e.g. selfdescribed-null@ d9d9f7f6
-	"bls12381.PointG2|*|selfdescribed-null|panic",                                                                                   // e.g. selfdescribed-null@ d9d9f7f6
-	"bls12381.Scalar|*|selfdescribed-null|panic",                                                                                    // e.g. selfdescribed-null@ d9d9f7f6
-	"canetti/canetti.CommitmentMessage|*|selfdescribed-null|panic",                                                                  // e.g. selfdescribed-null@/X a56141a16161a16f636f..696e67494403(141)
-	"canetti/canetti.Round2Broadcast|*|selfdescribed-null|panic",                                                                    // e.g. selfdescribed-null@/Message/X a2615558203070515f56..696e67494402(186)
-	"canetti/canetti.Round2P2P|*|selfdescribed-null|panic",                                                                          // e.g. selfdescribed-null@/Share a1655368617265d9d9f7f6
-	"canetti/canetti.Round3Broadcast|*|selfdescribed-null|panic",                                                                    // e.g. selfdescribed-null@/Psi/Z/z a163507369a36141a161..617ad9d9f7f6(92)
-	"cnf.CNF|*|selfdescribed-null|panic",                                                                                            // e.g. selfdescribed-null@ d9d9f7f6
-	"curve25519.Point|*|selfdescribed-null|panic",                                                                                   // e.g. selfdescribed-null@ d9d9f7f6
-	"curve25519.PrimeSubGroupPoint|*|selfdescribed-null|panic",                                                                      // e.g. selfdescribed-null@ d9d9f7f6
-	"dhc.ExtendedPrivateKey|*|selfdescribed-null|panic",                                                                             // e.g. selfdescribed-null@/s a26173d9d9f7f6647365..c8a4c76ccbf6(46)
-	"dhc.ExtendedPrivateKey|/s|missing-field|panic",                                                                                 // e.g. dropkey@/s a1647365656458201455..c8a4c76ccbf6(40)
-	"dhc.ExtendedPrivateKey|/s|null-field|panic",                                                                                    // e.g. null@/s a26173f6647365656458..c8a4c76ccbf6(43)
-	"dkls23.PartialSignature|*|selfdescribed-null|panic",                                                                            // e.g. selfdescribed-null@ d9d9f7f6
-	"dkls23.Shard|*|selfdescribed-null|panic",                                                                                       // e.g. selfdescribed-null@ d9d9f7f6
-	"dkls23.Shard|/publicMaterial|null-field|panic",                                                                                 // e.g. null@/publicMaterial a2657368617265a26269..657269616cf6(81)
-	"dkls23/signing_bbot.Round3P2P|*|selfdescribed-null|panic",                                                                      // e.g. selfdescribed-null@/psi a463707369d9d9f7f665..c55fdc3a7102(77238)
-	"dkls23/signing_softspoken.Round4P2P|*|selfdescribed-null|panic",                                                                // e.g. selfdescribed-null@/psi a463707369d9d9f7f665..060236e9ec0e(94998)
-	"ecdsa.PublicKey|*|selfdescribed-null|panic",                                                                                    // e.g. selfdescribed-null@ d9d9f7f6
-	"ecdsa.PublicKey|/publicKey|missing-field|panic",                                                                                // e.g. dropkey@/publicKey a0
-	"ecdsa.PublicKey|/publicKey|null-field|panic",                                                                                   // e.g. null@/publicKey a1697075626c69634b6579f6
-	"ecdsa.PublicKey||wrong-type-field|panic",                                                                                       // e.g. emptymap@ a0
-	"ecdsa.Signature|*|selfdescribed-null|panic",                                                                                    // e.g. selfdescribed-null@ d9d9f7f6
-	"ecdsa.Signature|/r|missing-field|panic",                                                                                        // e.g. dropkey@/r a26173a16a6669656c64..62ee10617600(52)
-	"ecdsa.Signature|/r|null-field|panic",                                                                                           // e.g. null@/r a36172f66173a16a6669..62ee10617600(55)
-	"ecdsa.Signature|/s|missing-field|panic",                                                                                        // e.g. dropkey@/s a26172a16a6669656c64..157bc6617600(52)
-	"ecdsa.Signature|/s|null-field|panic",                                                                                           // e.g. null@/s a36172a16a6669656c64..6173f6617600(55)
-	"ecdsa.Signature||wrong-type-field|panic",                                                                                       // e.g. emptymap@ a0
-	"edwards25519.BaseFieldElement|*|selfdescribed-null|panic",                                                                      // e.g. selfdescribed-null@ d9d9f7f6
-	"edwards25519.Point|*|selfdescribed-null|panic",                                                                                 // e.g. selfdescribed-null@ d9d9f7f6
-	"edwards25519.PrimeSubGroupPoint|*|selfdescribed-null|panic",                                                                    // e.g. selfdescribed-null@ d9d9f7f6
-	"edwards25519.Scalar|*|selfdescribed-null|panic",                                                                                // e.g. selfdescribed-null@ d9d9f7f6
-	"elgamal.Ciphertext|*|selfdescribed-null|panic",                                                                                 // e.g. selfdescribed-null@ d9d9f7f6
-	"elgamal.Ciphertext|/v/components|array-length|panic",                                                                           // e.g. truncate-array@/v/components a16176a16a636f6d706f..99c1a1adfa4b(68)
-	"elgamal.Ciphertext|/v/components|missing-field|panic",                                                                          // e.g. dropkey@/v/components a16176a0
-	"elgamal.Ciphertext|/v/components|null-field|panic",                                                                             // e.g. null@/v/components a16176a16a636f6d706f6e656e7473f6
-	"elgamal.Ciphertext|/v/components|wrong-type-field|panic",                                                                       // e.g. emptyarray@/v/components a16176a16a636f6d706f6e656e747380
-	"elgamal.Ciphertext|/v|wrong-type-field|panic",                                                                                  // e.g. emptymap@/v a16176a0
-	"elgamal.Nonce|*|selfdescribed-null|panic",                                                                                      // e.g. selfdescribed-null@ d9d9f7f6
-	"elgamal.Plaintext|*|selfdescribed-null|panic",                                                                                  // e.g. selfdescribed-null@ d9d9f7f6
-	"elgamal.PublicKey|*|selfdescribed-null|panic",                                                                                  // e.g. selfdescribed-null@ d9d9f7f6
-	"elgamal.SecretKey|*|selfdescribed-null|panic",                                                                                  // e.g. selfdescribed-null@ d9d9f7f6
-	"feldman.LiftedShare|*|selfdescribed-null|panic",                                                                                // e.g. selfdescribed-null@ d9d9f7f6
-	"feldman.VerificationVector|*|selfdescribed-null|panic",                                                                         // e.g. selfdescribed-null@ d9d9f7f6
-	"fischlin.Proof|*|selfdescribed-null|panic",                                                                                     // e.g. selfdescribed-null@/z/*/z a3616190a16161a16f63..a587f06da020(1680)
-	"fs/zkmodule.Proof|*|selfdescribed-null|panic",                                                                                  // e.g. selfdescribed-null@/Z/z a36141a16161a16f636f..617ad9d9f7f6(87)
-	"gennaro/gennaro.Round1Broadcast|*|selfdescribed-null|panic",                                                                    // e.g. selfdescribed-null@/verificationVector a26570726f6f66590160..6f72d9d9f7f6(385)
-	"gennaro/gennaro.Round1Unicast|*|selfdescribed-null|panic",                                                                      // e.g. selfdescribed-null@/share a1657368617265d9d9f7f6
-	"gennaro/gennaro.Round2Broadcast|*|selfdescribed-null|panic",                                                                    // e.g. selfdescribed-null@/verificationVector a26570726f6f665881a3..6f72d9d9f7f6(161)
-	"hierarchical.HierarchicalConjunctiveThreshold|*|selfdescribed-null|panic",                                                      // e.g. selfdescribed-null@ d9d9f7f6
-	"hjky/hjky.Round1Broadcast|*|selfdescribed-null|panic",                                                                          // e.g. selfdescribed-null@/verificationVector a172766572696669636174696f6e566563746f72d9d9f7f6
-	"hjky/hjky.Round1P2P|*|selfdescribed-null|panic",                                                                                // e.g. selfdescribed-null@/zeroShare a1697a65726f5368617265d9d9f7f6
-	"indcpacom.CommitmentKey|*|selfdescribed-null|panic",                                                                            // e.g. selfdescribed-null@ d9d9f7f6
-	"indcpacom.CommitmentKey|/encryption_key/group@5016/n/natPlus|missing-field|panic",                                              // e.g. dropkey@/encryption_key/group@5016/n/natPlus a16e656e637279707469..1398a1616ea0(30)
-	"indcpacom.CommitmentKey|/encryption_key/group@5016/n/natPlus|null-field|panic",                                                 // e.g. null@/encryption_key/group@5016/n/natPlus a16e656e637279707469..74506c7573f6(39)
-	"indcpacom.CommitmentKey|/encryption_key/group@5016/n|missing-field|panic",                                                      // e.g. dropkey@/encryption_key/group@5016/n a16e656e637279707469..7570d91398a0(27)
-	"indcpacom.CommitmentKey|/encryption_key/group@5016/n|null-field|panic",                                                         // e.g. null@/encryption_key/group@5016/n a16e656e637279707469..1398a1616ef6(30)
-	"indcpacom.CommitmentKey|/encryption_key/group@5016/n|wrong-type-field|panic",                                                   // e.g. emptymap@/encryption_key/group@5016/n a16e656e637279707469..1398a1616ea0(30)
-	"indcpacom.CommitmentKey|/encryption_key/group@5016|null-field|panic",                                                           // e.g. null@/encryption_key/group@5016 a16e656e637279707469..7570d91398f6(27)
-	"indcpacom.CommitmentKey|/encryption_key/group@5016|wrong-type-field|panic",                                                     // e.g. emptymap@/encryption_key/group@5016 a16e656e637279707469..7570d91398a0(27)
-	"indcpacom.CommitmentKey|/encryption_key/group|wrong-type-field|panic",                                                          // e.g. emptymap@/encryption_key/group a16e656e6372797074696f6e5f6b6579a16567726f7570a0
-	"indcpacom.Commitment|*|selfdescribed-null|panic",                                                                               // e.g. selfdescribed-null@ d9d9f7f6
-	"indcpacom.Commitment|/c/c@5017/n/natPlus|missing-field|panic",                                                                  // e.g. dropkey@/c/c@5017/n/natPlus a16163a16163d91399a3..c73bd33f4e11(878)
-	"indcpacom.Commitment|/c/c@5017/n/natPlus|null-field|panic",                                                                     // e.g. null@/c/c@5017/n/natPlus a16163a16163d91399a3..c73bd33f4e11(887)
-	"indcpacom.Commitment|/c/c@5017/n|wrong-type-field|panic",                                                                       // e.g. emptymap@/c/c@5017/n a16163a16163d91399a3..c73bd33f4e11(878)
-	"indcpacom.Message|*|selfdescribed-null|panic",                                                                                  // e.g. selfdescribed-null@ d9d9f7f6
-	"indcpacom.Witness|*|selfdescribed-null|panic",                                                                                  // e.g. selfdescribed-null@ d9d9f7f6
-	"intcom.CommitmentKey|*|selfdescribed-null|panic",                                                                               // e.g. selfdescribed-null@/s@5013/v a26173d91395a26176d9..56682c0b1259(669)
-	"intcom.Commitment|*|selfdescribed-null|panic",                                                                                  // e.g. selfdescribed-null@/v@5013/v a16176d91395a26176d9..56682c0b1259(185)
-	"intcom.Message|*|selfdescribed-null|panic",                                                                                     // e.g. selfdescribed-null@/m a1616dd9d9f7f6
-	"intcom.TrapdoorKey|*|altered-value|panic",                                                                                      // e.g. zerobytes@/t@5011/arithmetic@5007/p/natBytes a26174d91393a26176a2..ec59e6861f39(795)
-	"intcom.TrapdoorKey|*|selfdescribed-null|panic",                                                                                 // e.g. selfdescribed-null@/lambda a26174d91393a26176a2..6461d9d9f7f6(495)
-	"intcom.TrapdoorKey|/t@5011/arithmetic@5007/p/natBytes|missing-field|panic",                                                     // e.g. dropkey@/t@5011/arithmetic@5007/p/natBytes a26174d91393a26176a2..ec59e6861f39(720)
-	"intcom.TrapdoorKey|/t@5011/arithmetic@5007/p/natBytes|null-field|panic",                                                        // e.g. null@/t@5011/arithmetic@5007/p/natBytes a26174d91393a26176a2..ec59e6861f39(730)
-	"intcom.TrapdoorKey|/t@5011/arithmetic@5007/p/natBytes|wrong-type-field|panic",                                                  // e.g. emptyarray@/t@5011/arithmetic@5007/p/natBytes a26174d91393a26176a2..ec59e6861f39(730)
-	"intcom.TrapdoorKey|/t@5011/arithmetic@5007/p|wrong-type-field|panic",                                                           // e.g. emptymap@/t@5011/arithmetic@5007/p a26174d91393a26176a2..ec59e6861f39(720)
-	"intcom.Witness|*|selfdescribed-null|panic",                                                                                     // e.g. selfdescribed-null@/r a16172d9d9f7f6
-	"isn.Share|*|selfdescribed-null|panic",                                                                                          // e.g. selfdescribed-null@ d9d9f7f6
-	"k256.BaseFieldElement|*|selfdescribed-null|panic",                                                                              // e.g. selfdescribed-null@ d9d9f7f6
-	"k256.Scalar|*|selfdescribed-null|panic",                                                                                        // e.g. selfdescribed-null@ d9d9f7f6
-	"key_agreement.PrivateKey|*|selfdescribed-null|panic",                                                                           // e.g. selfdescribed-null@ d9d9f7f6
-	"key_agreement.PrivateKey|/v|missing-field|panic",                                                                               // e.g. dropkey@/v a161746a4543535644502d444843
-	"key_agreement.PrivateKey|/v|null-field|panic",                                                                                  // e.g. null@/v a261746a4543535644502d4448436176f6
-	"key_agreement.PrivateKey||wrong-type-field|panic",                                                                              // e.g. emptymap@ a0
-	"key_agreement.PublicKey|*|selfdescribed-null|panic",                                                                            // e.g. selfdescribed-null@ d9d9f7f6
-	"key_agreement.PublicKey|/v|missing-field|panic",                                                                                // e.g. dropkey@/v a161746a4543535644502d444843
-	"key_agreement.PublicKey|/v|null-field|panic",                                                                                   // e.g. null@/v a261746a4543535644502d4448436176f6
-	"key_agreement.PublicKey||wrong-type-field|panic",                                                                               // e.g. emptymap@ a0
-	"kw.Share|*|selfdescribed-null|panic",                                                                                           // e.g. selfdescribed-null@ d9d9f7f6
-	"lindell17.AuxiliaryInfo|*|selfdescribed-null|panic",                                                                            // e.g. selfdescribed-null@/paillierSecretKey a36f656e637279707465..05316b459fcb(2436)
-	"lindell17.AuxiliaryInfo|/encryptedShares/<key>/*/c@5017/n/natPlus|missing-field|panic",                                         // e.g. dropkey@/encryptedShares/<key>/*/c@5017/n/natPlus a36f656e637279707465..05316b459fcb(2469)
-	"lindell17.AuxiliaryInfo|/encryptedShares/<key>/*/c@5017/n/natPlus|null-field|panic",                                            // e.g. null@/encryptedShares/<key>/*/c@5017/n/natPlus a36f656e637279707465..05316b459fcb(2478)
-	"lindell17.AuxiliaryInfo|/encryptedShares/<key>/*/c@5017/n|wrong-type-field|panic",                                              // e.g. emptymap@/encryptedShares/<key>/*/c@5017/n a36f656e637279707465..05316b459fcb(2469)
-	"lindell17.AuxiliaryInfo|/paillierPublicKeys/<key>/group@5016/n/natPlus|missing-field|panic",                                    // e.g. dropkey@/paillierPublicKeys/<key>/group@5016/n/natPlus a36f656e637279707465..05316b459fcb(2469)
-	"lindell17.AuxiliaryInfo|/paillierPublicKeys/<key>/group@5016/n/natPlus|null-field|panic",                                       // e.g. null@/paillierPublicKeys/<key>/group@5016/n/natPlus a36f656e637279707465..05316b459fcb(2478)
-	"lindell17.AuxiliaryInfo|/paillierPublicKeys/<key>/group@5016/n|missing-field|panic",                                            // e.g. dropkey@/paillierPublicKeys/<key>/group@5016/n a36f656e637279707465..05316b459fcb(2466)
-	"lindell17.AuxiliaryInfo|/paillierPublicKeys/<key>/group@5016/n|null-field|panic",                                               // e.g. null@/paillierPublicKeys/<key>/group@5016/n a36f656e637279707465..05316b459fcb(2469)
-	"lindell17.AuxiliaryInfo|/paillierPublicKeys/<key>/group@5016/n|wrong-type-field|panic",                                         // e.g. emptymap@/paillierPublicKeys/<key>/group@5016/n a36f656e637279707465..05316b459fcb(2469)
-	"lindell17.AuxiliaryInfo|/paillierPublicKeys/<key>/group@5016|null-field|panic",                                                 // e.g. null@/paillierPublicKeys/<key>/group@5016 a36f656e637279707465..05316b459fcb(2466)
-	"lindell17.AuxiliaryInfo|/paillierPublicKeys/<key>/group@5016|wrong-type-field|panic",                                           // e.g. emptymap@/paillierPublicKeys/<key>/group@5016 a36f656e637279707465..05316b459fcb(2466)
-	"lindell17.AuxiliaryInfo|/paillierPublicKeys/<key>/group|wrong-type-field|panic",                                                // e.g. emptymap@/paillierPublicKeys/<key>/group a36f656e637279707465..05316b459fcb(2463)
-	"lindell17.AuxiliaryInfo|/paillierSecretKey/group@5014/p/natPlus|missing-field|panic",                                           // e.g. dropkey@/paillierSecretKey/group@5014/p/natPlus a36f656e637279707465..05316b459fcb(2533)
-	"lindell17.AuxiliaryInfo|/paillierSecretKey/group@5014/p/natPlus|null-field|panic",                                              // e.g. null@/paillierSecretKey/group@5014/p/natPlus a36f656e637279707465..05316b459fcb(2542)
-	"lindell17.AuxiliaryInfo|/paillierSecretKey/group@5014/p|wrong-type-field|panic",                                                // e.g. emptymap@/paillierSecretKey/group@5014/p a36f656e637279707465..05316b459fcb(2533)
-	"lindell17.AuxiliaryInfo|/paillierSecretKey/group@5014/q/natPlus|missing-field|panic",                                           // e.g. dropkey@/paillierSecretKey/group@5014/q/natPlus a36f656e637279707465..05316b459fcb(2533)
-	"lindell17.AuxiliaryInfo|/paillierSecretKey/group@5014/q/natPlus|null-field|panic",                                              // e.g. null@/paillierSecretKey/group@5014/q/natPlus a36f656e637279707465..05316b459fcb(2542)
-	"lindell17.AuxiliaryInfo|/paillierSecretKey/group@5014/q|wrong-type-field|panic",                                                // e.g. emptymap@/paillierSecretKey/group@5014/q a36f656e637279707465..05316b459fcb(2533)
-	"lindell17.Shard|*|selfdescribed-null|panic",                                                                                    // e.g. selfdescribed-null@/base a26462617365d9d9f7f6..74a45d255737(2641)
-	"lindell17.Shard|/auxiliaryInfo/encryptedShares/<key>/*/c@5017/n/natPlus|missing-field|panic",                                   // e.g. dropkey@/auxiliaryInfo/encryptedShares/<key>/*/c@5017/n/natPlus a26462617365a2657368..74a45d255737(3
-	"lindell17.Shard|/auxiliaryInfo/encryptedShares/<key>/*/c@5017/n/natPlus|null-field|panic",                                      // e.g. null@/auxiliaryInfo/encryptedShares/<key>/*/c@5017/n/natPlus a26462617365a2657368..74a45d255737(3070
-	"lindell17.Shard|/auxiliaryInfo/encryptedShares/<key>/*/c@5017/n|wrong-type-field|panic",                                        // e.g. emptymap@/auxiliaryInfo/encryptedShares/<key>/*/c@5017/n a26462617365a2657368..74a45d255737(3061)
-	"lindell17.Shard|/auxiliaryInfo/paillierPublicKeys/<key>/group@5016/n/natPlus|missing-field|panic",                              // e.g. dropkey@/auxiliaryInfo/paillierPublicKeys/<key>/group@5016/n/natPlus a26462617365a2657368..74a45d255
-	"lindell17.Shard|/auxiliaryInfo/paillierPublicKeys/<key>/group@5016/n/natPlus|null-field|panic",                                 // e.g. null@/auxiliaryInfo/paillierPublicKeys/<key>/group@5016/n/natPlus a26462617365a2657368..74a45d255737
-	"lindell17.Shard|/auxiliaryInfo/paillierPublicKeys/<key>/group@5016/n|missing-field|panic",                                      // e.g. dropkey@/auxiliaryInfo/paillierPublicKeys/<key>/group@5016/n a26462617365a2657368..74a45d255737(3058
-	"lindell17.Shard|/auxiliaryInfo/paillierPublicKeys/<key>/group@5016/n|null-field|panic",                                         // e.g. null@/auxiliaryInfo/paillierPublicKeys/<key>/group@5016/n a26462617365a2657368..74a45d255737(3061)
-	"lindell17.Shard|/auxiliaryInfo/paillierPublicKeys/<key>/group@5016/n|wrong-type-field|panic",                                   // e.g. emptymap@/auxiliaryInfo/paillierPublicKeys/<key>/group@5016/n a26462617365a2657368..74a45d255737(306
-	"lindell17.Shard|/auxiliaryInfo/paillierPublicKeys/<key>/group@5016|null-field|panic",                                           // e.g. null@/auxiliaryInfo/paillierPublicKeys/<key>/group@5016 a26462617365a2657368..74a45d255737(3058)
-	"lindell17.Shard|/auxiliaryInfo/paillierPublicKeys/<key>/group@5016|wrong-type-field|panic",                                     // e.g. emptymap@/auxiliaryInfo/paillierPublicKeys/<key>/group@5016 a26462617365a2657368..74a45d255737(3058)
-	"lindell17.Shard|/auxiliaryInfo/paillierPublicKeys/<key>/group|wrong-type-field|panic",                                          // e.g. emptymap@/auxiliaryInfo/paillierPublicKeys/<key>/group a26462617365a2657368..74a45d255737(3055)
-	"lindell17.Shard|/auxiliaryInfo/paillierSecretKey/group@5014/p/natPlus|missing-field|panic",                                     // e.g. dropkey@/auxiliaryInfo/paillierSecretKey/group@5014/p/natPlus a26462617365a2657368..74a45d255737(312
-	"lindell17.Shard|/auxiliaryInfo/paillierSecretKey/group@5014/p/natPlus|null-field|panic",                                        // e.g. null@/auxiliaryInfo/paillierSecretKey/group@5014/p/natPlus a26462617365a2657368..74a45d255737(3134)
-	"lindell17.Shard|/auxiliaryInfo/paillierSecretKey/group@5014/p|wrong-type-field|panic",                                          // e.g. emptymap@/auxiliaryInfo/paillierSecretKey/group@5014/p a26462617365a2657368..74a45d255737(3125)
-	"lindell17.Shard|/auxiliaryInfo/paillierSecretKey/group@5014/q/natPlus|missing-field|panic",                                     // e.g. dropkey@/auxiliaryInfo/paillierSecretKey/group@5014/q/natPlus a26462617365a2657368..74a45d255737(312
-	"lindell17.Shard|/auxiliaryInfo/paillierSecretKey/group@5014/q/natPlus|null-field|panic",                                        // e.g. null@/auxiliaryInfo/paillierSecretKey/group@5014/q/natPlus a26462617365a2657368..74a45d255737(3134)
-	"lindell17.Shard|/auxiliaryInfo/paillierSecretKey/group@5014/q|wrong-type-field|panic",                                          // e.g. emptymap@/auxiliaryInfo/paillierSecretKey/group@5014/q a26462617365a2657368..74a45d255737(3125)
-	"lindell17.Shard|/base/publicMaterial|null-field|panic",                                                                         // e.g. null@/base/publicMaterial a26462617365a2657368..74a45d255737(2718)
-	"lindell17/dkg.Round3Broadcast|*|selfdescribed-null|panic",                                                                      // e.g. selfdescribed-null@/PaillierPublicKey a26a436f6d706f6e656e..6579d9d9f7f6(2113)
-	"lindell17/dkg.Round3Broadcast|/Components/*/CKeyDoublePrime/c@5017/n/natPlus|missing-field|panic",                              // e.g. dropkey@/Components/*/CKeyDoublePrime/c@5017/n/natPlus a26a436f6d706f6e656e..a28683a69da1(2123)
-	"lindell17/dkg.Round3Broadcast|/Components/*/CKeyDoublePrime/c@5017/n/natPlus|null-field|panic",                                 // e.g. null@/Components/*/CKeyDoublePrime/c@5017/n/natPlus a26a436f6d706f6e656e..a28683a69da1(2132)
-	"lindell17/dkg.Round3Broadcast|/Components/*/CKeyDoublePrime/c@5017/n|wrong-type-field|panic",                                   // e.g. emptymap@/Components/*/CKeyDoublePrime/c@5017/n a26a436f6d706f6e656e..a28683a69da1(2123)
-	"lindell17/dkg.Round3Broadcast|/Components/*/CKeyPrime/c@5017/n/natPlus|missing-field|panic",                                    // e.g. dropkey@/Components/*/CKeyPrime/c@5017/n/natPlus a26a436f6d706f6e656e..a28683a69da1(2123)
-	"lindell17/dkg.Round3Broadcast|/Components/*/CKeyPrime/c@5017/n/natPlus|null-field|panic",                                       // e.g. null@/Components/*/CKeyPrime/c@5017/n/natPlus a26a436f6d706f6e656e..a28683a69da1(2132)
-	"lindell17/dkg.Round3Broadcast|/Components/*/CKeyPrime/c@5017/n|wrong-type-field|panic",                                         // e.g. emptymap@/Components/*/CKeyPrime/c@5017/n a26a436f6d706f6e656e..a28683a69da1(2123)
-	"lindell17/dkg.Round3Broadcast|/PaillierPublicKey/group@5016/n/natPlus|missing-field|panic",                                     // e.g. dropkey@/PaillierPublicKey/group@5016/n/natPlus a26a436f6d706f6e656e..1398a1616ea0(2123)
-	"lindell17/dkg.Round3Broadcast|/PaillierPublicKey/group@5016/n/natPlus|null-field|panic",                                        // e.g. null@/PaillierPublicKey/group@5016/n/natPlus a26a436f6d706f6e656e..74506c7573f6(2132)
-	"lindell17/dkg.Round3Broadcast|/PaillierPublicKey/group@5016/n|missing-field|panic",                                             // e.g. dropkey@/PaillierPublicKey/group@5016/n a26a436f6d706f6e656e..7570d91398a0(2120)
-	"lindell17/dkg.Round3Broadcast|/PaillierPublicKey/group@5016/n|null-field|panic",                                                // e.g. null@/PaillierPublicKey/group@5016/n a26a436f6d706f6e656e..1398a1616ef6(2123)
-	"lindell17/dkg.Round3Broadcast|/PaillierPublicKey/group@5016/n|wrong-type-field|panic",                                          // e.g. emptymap@/PaillierPublicKey/group@5016/n a26a436f6d706f6e656e..1398a1616ea0(2123)
-	"lindell17/dkg.Round3Broadcast|/PaillierPublicKey/group@5016|null-field|panic",                                                  // e.g. null@/PaillierPublicKey/group@5016 a26a436f6d706f6e656e..7570d91398f6(2120)
-	"lindell17/dkg.Round3Broadcast|/PaillierPublicKey/group@5016|wrong-type-field|panic",                                            // e.g. emptymap@/PaillierPublicKey/group@5016 a26a436f6d706f6e656e..7570d91398a0(2120)
-	"lindell17/dkg.Round3Broadcast|/PaillierPublicKey/group|wrong-type-field|panic",                                                 // e.g. emptymap@/PaillierPublicKey/group a26a436f6d706f6e656e..67726f7570a0(2117)
-	"lindell17/dkg.Round4P2P|*|selfdescribed-null|panic",                                                                            // e.g. selfdescribed-null@/LpRound1Output/X/*/x@5017/n a26a436f6d706f6e656e..ba4f93dadf41(264140)
-	"lindell17/dkg.Round4P2P|/Components/*/LpdlDoublePrimeRound1Output/CPrime/c@5017/n/natPlus|missing-field|panic",                 // e.g. dropkey@/Components/*/LpdlDoublePrimeRound1Output/CPrime/c@5017/n/natPlus a26a436f6d706f6e656e..ba4f
-	"lindell17/dkg.Round4P2P|/Components/*/LpdlDoublePrimeRound1Output/CPrime/c@5017/n/natPlus|null-field|panic",                    // e.g. null@/Components/*/LpdlDoublePrimeRound1Output/CPrime/c@5017/n/natPlus a26a436f6d706f6e656e..ba4f93d
-	"lindell17/dkg.Round4P2P|/Components/*/LpdlDoublePrimeRound1Output/CPrime/c@5017/n|wrong-type-field|panic",                      // e.g. emptymap@/Components/*/LpdlDoublePrimeRound1Output/CPrime/c@5017/n a26a436f6d706f6e656e..ba4f93dadf4
-	"lindell17/dkg.Round4P2P|/Components/*/LpdlPrimeRound1Output/CPrime/c@5017/n/natPlus|missing-field|panic",                       // e.g. dropkey@/Components/*/LpdlPrimeRound1Output/CPrime/c@5017/n/natPlus a26a436f6d706f6e656e..ba4f93dadf
-	"lindell17/dkg.Round4P2P|/Components/*/LpdlPrimeRound1Output/CPrime/c@5017/n/natPlus|null-field|panic",                          // e.g. null@/Components/*/LpdlPrimeRound1Output/CPrime/c@5017/n/natPlus a26a436f6d706f6e656e..ba4f93dadf41(
-	"lindell17/dkg.Round4P2P|/Components/*/LpdlPrimeRound1Output/CPrime/c@5017/n|wrong-type-field|panic",                            // e.g. emptymap@/Components/*/LpdlPrimeRound1Output/CPrime/c@5017/n a26a436f6d706f6e656e..ba4f93dadf41(2641
-	"lindell17/dkg.Round4P2P|/LpRound1Output/NthRootsProverOutput/*/a@5017/n/natPlus|missing-field|panic",                           // e.g. dropkey@/LpRound1Output/NthRootsProverOutput/*/a@5017/n/natPlus a26a436f6d706f6e656e..ba4f93dadf41(2
-	"lindell17/dkg.Round4P2P|/LpRound1Output/NthRootsProverOutput/*/a@5017/n/natPlus|null-field|panic",                              // e.g. null@/LpRound1Output/NthRootsProverOutput/*/a@5017/n/natPlus a26a436f6d706f6e656e..ba4f93dadf41(2641
-	"lindell17/dkg.Round4P2P|/LpRound1Output/NthRootsProverOutput/*/a@5017/n|wrong-type-field|panic",                                // e.g. emptymap@/LpRound1Output/NthRootsProverOutput/*/a@5017/n a26a436f6d706f6e656e..ba4f93dadf41(264137)
-	"lindell17/dkg.Round4P2P|/LpRound1Output/X/*/x@5017/n/natPlus|missing-field|panic",                                              // e.g. dropkey@/LpRound1Output/X/*/x@5017/n/natPlus a26a436f6d706f6e656e..ba4f93dadf41(264137)
-	"lindell17/dkg.Round4P2P|/LpRound1Output/X/*/x@5017/n/natPlus|null-field|panic",                                                 // e.g. null@/LpRound1Output/X/*/x@5017/n/natPlus a26a436f6d706f6e656e..ba4f93dadf41(264146)
-	"lindell17/dkg.Round4P2P|/LpRound1Output/X/*/x@5017/n|wrong-type-field|panic",                                                   // e.g. emptymap@/LpRound1Output/X/*/x@5017/n a26a436f6d706f6e656e..ba4f93dadf41(264137)
-	"lindell17/dkg.Round5P2P|*|selfdescribed-null|panic",                                                                            // e.g. selfdescribed-null@/Components/*/LpdlPrimeRound2Output/RangeProverOutput/C1/* a26a436f6d706f6e656e..
-	"lindell17/dkg.Round5P2P|/Components/*/LpdlDoublePrimeRound2Output/RangeProverOutput/C1/*/c@5017/n/natPlus|missing-field|panic", // e.g. dropkey@/Components/*/LpdlDoublePrimeRound2Output/RangeProverOutput/C1/*/c@5017/n/natPlus a26a436f6d
-	"lindell17/dkg.Round5P2P|/Components/*/LpdlDoublePrimeRound2Output/RangeProverOutput/C1/*/c@5017/n/natPlus|null-field|panic",    // e.g. null@/Components/*/LpdlDoublePrimeRound2Output/RangeProverOutput/C1/*/c@5017/n/natPlus a26a436f6d706
-	"lindell17/dkg.Round5P2P|/Components/*/LpdlDoublePrimeRound2Output/RangeProverOutput/C1/*/c@5017/n|wrong-type-field|panic",      // e.g. emptymap@/Components/*/LpdlDoublePrimeRound2Output/RangeProverOutput/C1/*/c@5017/n a26a436f6d706f6e6
-	"lindell17/dkg.Round5P2P|/Components/*/LpdlDoublePrimeRound2Output/RangeProverOutput/C2/*/c@5017/n/natPlus|missing-field|panic", // e.g. dropkey@/Components/*/LpdlDoublePrimeRound2Output/RangeProverOutput/C2/*/c@5017/n/natPlus a26a436f6d
-	"lindell17/dkg.Round5P2P|/Components/*/LpdlDoublePrimeRound2Output/RangeProverOutput/C2/*/c@5017/n/natPlus|null-field|panic",    // e.g. null@/Components/*/LpdlDoublePrimeRound2Output/RangeProverOutput/C2/*/c@5017/n/natPlus a26a436f6d706
-	"lindell17/dkg.Round5P2P|/Components/*/LpdlDoublePrimeRound2Output/RangeProverOutput/C2/*/c@5017/n|wrong-type-field|panic",      // e.g. emptymap@/Components/*/LpdlDoublePrimeRound2Output/RangeProverOutput/C2/*/c@5017/n a26a436f6d706f6e6
-	"lindell17/dkg.Round5P2P|/Components/*/LpdlPrimeRound2Output/RangeProverOutput/C1/*/c@5017/n/natPlus|missing-field|panic",       // e.g. dropkey@/Components/*/LpdlPrimeRound2Output/RangeProverOutput/C1/*/c@5017/n/natPlus a26a436f6d706f6e
-	"lindell17/dkg.Round5P2P|/Components/*/LpdlPrimeRound2Output/RangeProverOutput/C1/*/c@5017/n/natPlus|null-field|panic",          // e.g. null@/Components/*/LpdlPrimeRound2Output/RangeProverOutput/C1/*/c@5017/n/natPlus a26a436f6d706f6e656
-	"lindell17/dkg.Round5P2P|/Components/*/LpdlPrimeRound2Output/RangeProverOutput/C1/*/c@5017/n|wrong-type-field|panic",            // e.g. emptymap@/Components/*/LpdlPrimeRound2Output/RangeProverOutput/C1/*/c@5017/n a26a436f6d706f6e656e..2
-	"lindell17/dkg.Round5P2P|/Components/*/LpdlPrimeRound2Output/RangeProverOutput/C2/*/c@5017/n/natPlus|missing-field|panic",       // e.g. dropkey@/Components/*/LpdlPrimeRound2Output/RangeProverOutput/C2/*/c@5017/n/natPlus a26a436f6d706f6e
-	"lindell17/dkg.Round5P2P|/Components/*/LpdlPrimeRound2Output/RangeProverOutput/C2/*/c@5017/n/natPlus|null-field|panic",          // e.g. null@/Components/*/LpdlPrimeRound2Output/RangeProverOutput/C2/*/c@5017/n/natPlus a26a436f6d706f6e656
-	"lindell17/dkg.Round5P2P|/Components/*/LpdlPrimeRound2Output/RangeProverOutput/C2/*/c@5017/n|wrong-type-field|panic",            // e.g. emptymap@/Components/*/LpdlPrimeRound2Output/RangeProverOutput/C2/*/c@5017/n a26a436f6d706f6e656e..2
-	"lindell17/dkg.Round6P2P|*|selfdescribed-null|panic",                                                                            // e.g. selfdescribed-null@/Components/*/LpdlPrimeRound3Output/A a26a436f6d706f6e656e..ba4f93dadf41(131825)
-	"lindell17/dkg.Round6P2P|/LpRound3Output/NthRootsProverOutput/*/z@5017/n/natPlus|missing-field|panic",                           // e.g. dropkey@/LpRound3Output/NthRootsProverOutput/*/z@5017/n/natPlus a26a436f6d706f6e656e..ba4f93dadf41(1
-	"lindell17/dkg.Round6P2P|/LpRound3Output/NthRootsProverOutput/*/z@5017/n/natPlus|null-field|panic",                              // e.g. null@/LpRound3Output/NthRootsProverOutput/*/z@5017/n/natPlus a26a436f6d706f6e656e..ba4f93dadf41(1317
-	"lindell17/dkg.Round6P2P|/LpRound3Output/NthRootsProverOutput/*/z@5017/n|wrong-type-field|panic",                                // e.g. emptymap@/LpRound3Output/NthRootsProverOutput/*/z@5017/n a26a436f6d706f6e656e..ba4f93dadf41(131785)
-	"lindell17/dkg.Round7P2P|*|selfdescribed-null|panic",                                                                            // e.g. selfdescribed-null@/LpRound4Output/YPrime/* a26a436f6d706f6e656e..9bc0e771579b(332805)
-	"lindell17/signing.Round4OutputP2P|*|selfdescribed-null|panic",                                                                  // e.g. selfdescribed-null@/c3 a1626333d9d9f7f6
-	"lindell17/signing.Round4OutputP2P|/c3/c@5017/n/natPlus|missing-field|panic",                                                    // e.g. dropkey@/c3/c@5017/n/natPlus a1626333a16163d91399..442f51774d69(879)
-	"lindell17/signing.Round4OutputP2P|/c3/c@5017/n/natPlus|null-field|panic",                                                       // e.g. null@/c3/c@5017/n/natPlus a1626333a16163d91399..442f51774d69(888)
-	"lindell17/signing.Round4OutputP2P|/c3/c@5017/n|wrong-type-field|panic",                                                         // e.g. emptymap@/c3/c@5017/n a1626333a16163d91399..442f51774d69(879)
-	"lindell22/lindell22.PartialSignature|*|selfdescribed-null|panic",                                                               // e.g. selfdescribed-null@/signature/e a1697369676e61747572..6ede281e6620(120)
-	"lindell22/schnorr.PublicMaterial|*|selfdescribed-null|panic",                                                                   // e.g. selfdescribed-null@ d9d9f7f6
-	"lindell22/schnorr.Shard|*|selfdescribed-null|panic",                                                                            // e.g. selfdescribed-null@ d9d9f7f6
-	"lindell22/schnorr.Shard|/publicMaterial|null-field|panic",                                                                      // e.g. null@/publicMaterial a2657368617265a26269..657269616cf6(81)
-	"lindell22/signing.Round1Broadcast|*|selfdescribed-null|panic",                                                                  // e.g. selfdescribed-null@/zeroR1/verificationVector a2667a65726f5231a172..67f588f550f6(81)
-	"lindell22/signing.Round1P2P|*|selfdescribed-null|panic",                                                                        // e.g. selfdescribed-null@/zeroR1/zeroShare a1667a65726f5231a1697a65726f5368617265d9d9f7f6
-	"mat.Matrix|*|selfdescribed-null|panic",                                                                                         // e.g. selfdescribed-null@ d9d9f7f6
-	"mat.ModuleValuedMatrix|*|selfdescribed-null|panic",                                                                             // e.g. selfdescribed-null@ d9d9f7f6
-	"mat.SquareMatrix|*|selfdescribed-null|panic",                                                                                   // e.g. selfdescribed-null@ d9d9f7f6
-	"maurer09/maurer09.Response|*|selfdescribed-null|panic",                                                                         // e.g. selfdescribed-null@/z a1617ad9d9f7f6
-	"modular.OddPrimeFactors|*|altered-value|panic",                                                                                 // e.g. zerobytes@@5007/p/natBytes d9138fa26170a1686e61..31323d7a21c5(160)
-	"modular.OddPrimeFactors|*|selfdescribed-null|panic",                                                                            // e.g. selfdescribed-null@@5007/p d9138fa26170d9d9f7f6..31323d7a21c5(88)
-	"modular.OddPrimeFactors|@5007/p/natBytes|missing-field|panic",                                                                  // e.g. dropkey@@5007/p/natBytes d9138fa26170a06171a1..31323d7a21c5(85)
-	"modular.OddPrimeFactors|@5007/p/natBytes|null-field|panic",                                                                     // e.g. null@@5007/p/natBytes d9138fa26170a1686e61..31323d7a21c5(95)
-	"modular.OddPrimeFactors|@5007/p/natBytes|wrong-type-field|panic",                                                               // e.g. emptyarray@@5007/p/natBytes d9138fa26170a1686e61..31323d7a21c5(95)
-	"modular.OddPrimeFactors|@5007/p|wrong-type-field|panic",                                                                        // e.g. emptymap@@5007/p d9138fa26170a06171a1..31323d7a21c5(85)
-	"modular.OddPrimeSquareFactors|*|altered-value|panic",                                                                           // e.g. zerobytes@@5008/p/natBytes d91390a26170a1686e61..31323d7a21c5(160)
-	"modular.OddPrimeSquareFactors|*|selfdescribed-null|panic",                                                                      // e.g. selfdescribed-null@@5008/p d91390a26170d9d9f7f6..31323d7a21c5(88)
-	"modular.OddPrimeSquareFactors|@5008/p/natBytes|missing-field|panic",                                                            // e.g. dropkey@@5008/p/natBytes d91390a26170a06171a1..31323d7a21c5(85)
-	"modular.OddPrimeSquareFactors|@5008/p/natBytes|null-field|panic",                                                               // e.g. null@@5008/p/natBytes d91390a26170a1686e61..31323d7a21c5(95)
-	"modular.OddPrimeSquareFactors|@5008/p/natBytes|wrong-type-field|panic",                                                         // e.g. emptyarray@@5008/p/natBytes d91390a26170a1686e61..31323d7a21c5(95)
-	"modular.OddPrimeSquareFactors|@5008/p|wrong-type-field|panic",                                                                  // e.g. emptymap@@5008/p d91390a26170a06171a1..31323d7a21c5(85)
-	"modular.OddPrimeSquareFactors|@5008/q/natBytes|missing-field|panic",                                                            // e.g. dropkey@@5008/q/natBytes d91390a26170a1686e61..07062b6171a0(85)
-	"modular.OddPrimeSquareFactors|@5008/q/natBytes|null-field|panic",                                                               // e.g. null@@5008/q/natBytes d91390a26170a1686e61..4279746573f6(95)
-	"modular.OddPrimeSquareFactors|@5008/q/natBytes|wrong-type-field|panic",                                                         // e.g. emptyarray@@5008/q/natBytes d91390a26170a1686e61..427974657380(95)
-	"modular.OddPrimeSquareFactors|@5008/q|wrong-type-field|panic",                                                                  // e.g. emptymap@@5008/q d91390a26170a1686e61..07062b6171a0(85)
-	"modular.SimpleModulus|*|selfdescribed-null|panic",                                                                              // e.g. selfdescribed-null@@5006/modulus d9138ea1676d6f64756c7573d9d9f7f6
-	"mpc.BasePublicMaterial|*|selfdescribed-null|panic",                                                                             // e.g. selfdescribed-null@ d9d9f7f6
-	"mpc.BaseShard|*|selfdescribed-null|panic",                                                                                      // e.g. selfdescribed-null@ d9d9f7f6
-	"mpc.BaseShard|/publicMaterial|null-field|panic",                                                                                // e.g. null@/publicMaterial a2657368617265a26269..657269616cf6(81)
-	"msp.MSP|*|selfdescribed-null|panic",                                                                                            // e.g. selfdescribed-null@ d9d9f7f6
-	"num.Int|*|selfdescribed-null|panic",                                                                                            // e.g. selfdescribed-null@ d9d9f7f6
-	"num.NatPlus|*|selfdescribed-null|panic",                                                                                        // e.g. selfdescribed-null@ d9d9f7f6
-	"num.NatPlus|/natPlus|missing-field|panic",                                                                                      // e.g. dropkey@/natPlus a0
-	"num.NatPlus|/natPlus|null-field|panic",                                                                                         // e.g. null@/natPlus a1676e6174506c7573f6
-	"num.NatPlus||wrong-type-field|panic",                                                                                           // e.g. emptymap@ a0
-	"num.Nat|*|selfdescribed-null|panic",                                                                                            // e.g. selfdescribed-null@ d9d9f7f6
-	"num.Rat|*|selfdescribed-null|panic",                                                                                            // e.g. selfdescribed-null@ d9d9f7f6
-	"num.Rat|/b/natPlus|missing-field|panic",                                                                                        // e.g. dropkey@/b/natPlus a26161a163696e74a168..77f78b6162a0(281)
-	"num.Rat|/b/natPlus|null-field|panic",                                                                                           // e.g. null@/b/natPlus a26161a163696e74a168..74506c7573f6(290)
-	"num.Rat|/b|wrong-type-field|panic",                                                                                             // e.g. emptymap@/b a26161a163696e74a168..77f78b6162a0(281)
-	"num.Uint|*|selfdescribed-null|panic",                                                                                           // e.g. selfdescribed-null@ d9d9f7f6
-	"num.ZMod|*|selfdescribed-null|panic",                                                                                           // e.g. selfdescribed-null@ d9d9f7f6
-	"num.ZMod|/modulus/natPlus|missing-field|panic",                                                                                 // e.g. dropkey@/modulus/natPlus a1676d6f64756c7573a0
-	"num.ZMod|/modulus/natPlus|null-field|panic",                                                                                    // e.g. null@/modulus/natPlus a1676d6f64756c7573a1676e6174506c7573f6
-	"num.ZMod|/modulus|wrong-type-field|panic",                                                                                      // e.g. emptymap@/modulus a1676d6f64756c7573a0
-	"numct.Int|*|selfdescribed-null|panic",                                                                                          // e.g. selfdescribed-null@ d9d9f7f6
-	"numct.ModulusBasic|*|selfdescribed-null|panic",                                                                                 // e.g. selfdescribed-null@ d9d9f7f6
-	"numct.Nat|*|selfdescribed-null|panic",                                                                                          // e.g. selfdescribed-null@ d9d9f7f6
-	"p256.BaseFieldElement|*|selfdescribed-null|panic",                                                                              // e.g. selfdescribed-null@ d9d9f7f6
-	"p256.Point|*|selfdescribed-null|panic",                                                                                         // e.g. selfdescribed-null@ d9d9f7f6
-	"p256.Scalar|*|selfdescribed-null|panic",                                                                                        // e.g. selfdescribed-null@ d9d9f7f6
-	"paillier.Ciphertext|*|selfdescribed-null|panic",                                                                                // e.g. selfdescribed-null@ d9d9f7f6
-	"paillier.Ciphertext|/c@5017/n/natPlus|missing-field|panic",                                                                     // e.g. dropkey@/c@5017/n/natPlus a16163d91399a3616ea0..bd48499c6dd1(875)
-	"paillier.Ciphertext|/c@5017/n/natPlus|null-field|panic",                                                                        // e.g. null@/c@5017/n/natPlus a16163d91399a3616ea1..bd48499c6dd1(884)
-	"paillier.Ciphertext|/c@5017/n|wrong-type-field|panic",                                                                          // e.g. emptymap@/c@5017/n a16163d91399a3616ea0..bd48499c6dd1(875)
-	"paillier.Nonce|*|selfdescribed-null|panic",                                                                                     // e.g. selfdescribed-null@ d9d9f7f6
-	"paillier.Plaintext|*|selfdescribed-null|panic",                                                                                 // e.g. selfdescribed-null@ d9d9f7f6
-	"paillier.PublicKey|*|selfdescribed-null|panic",                                                                                 // e.g. selfdescribed-null@ d9d9f7f6
-	"paillier.PublicKey|/group@5016/n/natPlus|missing-field|panic",                                                                  // e.g. dropkey@/group@5016/n/natPlus a16567726f7570d91398a1616ea0
-	"paillier.PublicKey|/group@5016/n/natPlus|null-field|panic",                                                                     // e.g. null@/group@5016/n/natPlus a16567726f7570d91398a1616ea1676e6174506c7573f6
-	"paillier.PublicKey|/group@5016/n|missing-field|panic",                                                                          // e.g. dropkey@/group@5016/n a16567726f7570d91398a0
-	"paillier.PublicKey|/group@5016/n|null-field|panic",                                                                             // e.g. null@/group@5016/n a16567726f7570d91398a1616ef6
-	"paillier.PublicKey|/group@5016/n|wrong-type-field|panic",                                                                       // e.g. emptymap@/group@5016/n a16567726f7570d91398a1616ea0
-	"paillier.PublicKey|/group@5016|null-field|panic",                                                                               // e.g. null@/group@5016 a16567726f7570d91398f6
-	"paillier.PublicKey|/group@5016|wrong-type-field|panic",                                                                         // e.g. emptymap@/group@5016 a16567726f7570d91398a0
-	"paillier.PublicKey|/group|wrong-type-field|panic",                                                                              // e.g. emptymap@/group a16567726f7570a0
-	"paillier.SecretKey|*|selfdescribed-null|panic",                                                                                 // e.g. selfdescribed-null@ d9d9f7f6
-	"paillier.SecretKey|/group@5014/p/natPlus|missing-field|panic",                                                                  // e.g. dropkey@/group@5014/p/natPlus a16567726f7570d91396..ba445c330aad(101)
-	"paillier.SecretKey|/group@5014/p/natPlus|null-field|panic",                                                                     // e.g. null@/group@5014/p/natPlus a16567726f7570d91396..ba445c330aad(110)
-	"paillier.SecretKey|/group@5014/p|wrong-type-field|panic",                                                                       // e.g. emptymap@/group@5014/p a16567726f7570d91396..ba445c330aad(101)
-	"paillier.SecretKey|/group@5014/q/natPlus|missing-field|panic",                                                                  // e.g. dropkey@/group@5014/q/natPlus a16567726f7570d91396..a1e8416171a0(101)
-	"paillier.SecretKey|/group@5014/q/natPlus|null-field|panic",                                                                     // e.g. null@/group@5014/q/natPlus a16567726f7570d91396..74506c7573f6(110)
-	"paillier.SecretKey|/group@5014/q|wrong-type-field|panic",                                                                       // e.g. emptymap@/group@5014/q a16567726f7570d91396..a1e8416171a0(101)
-	"pasta.FpFieldElement|*|selfdescribed-null|panic",                                                                               // e.g. selfdescribed-null@ d9d9f7f6
-	"pasta.FqFieldElement|*|selfdescribed-null|panic",                                                                               // e.g. selfdescribed-null@ d9d9f7f6
-	"pasta.PallasPoint|*|selfdescribed-null|panic",                                                                                  // e.g. selfdescribed-null@ d9d9f7f6
-	"pasta.VestaPoint|*|selfdescribed-null|panic",                                                                                   // e.g. selfdescribed-null@ d9d9f7f6
-	"pedersen.LiftedShare|*|selfdescribed-null|panic",                                                                               // e.g. selfdescribed-null@ d9d9f7f6
-	"pedersen.Share|*|selfdescribed-null|panic",                                                                                     // e.g. selfdescribed-null@ d9d9f7f6
-	"pedersencom.CommitmentKey|*|selfdescribed-null|panic",                                                                          // e.g. selfdescribed-null@/g a26167d9d9f7f66168a1..30e6d53f25dc(76)
-	"pedersencom.Commitment|*|selfdescribed-null|panic",                                                                             // e.g. selfdescribed-null@/v a16176d9d9f7f6
-	"pedersencom.Message|*|selfdescribed-null|panic",                                                                                // e.g. selfdescribed-null@/m a1616dd9d9f7f6
-	"pedersencom.TrapdoorKey|*|selfdescribed-null|panic",                                                                            // e.g. selfdescribed-null@/g a26167d9d9f7f6666c61..02c20f2c0915(60)
-	"pedersencom.Witness|*|selfdescribed-null|panic",                                                                                // e.g. selfdescribed-null@/r a16172d9d9f7f6
-	"polynomials.ModuleValuedPolynomial|*|selfdescribed-null|panic",                                                                 // e.g. selfdescribed-null@ d9d9f7f6
-	"polynomials.Polynomial|*|selfdescribed-null|panic",                                                                             // e.g. selfdescribed-null@ d9d9f7f6
-	"randfischlin.Proof|*|selfdescribed-null|panic",                                                                                 // e.g. selfdescribed-null@/z/*/z a3616190a16161a16f63..2d8c58e4bd3f(1920)
-	"redistribute/redistribute.Round1Broadcast|*|selfdescribed-null|panic",                                                          // e.g. selfdescribed-null@/ZeroR1/verificationVector a1665a65726f5231a172..6f72d9d9f7f6(32)
-	"redistribute/redistribute.Round1P2P|*|selfdescribed-null|panic",                                                                // e.g. selfdescribed-null@/ZeroR1/zeroShare a1665a65726f5231a1697a65726f5368617265d9d9f7f6
-	"redistribute/redistribute.Round2Broadcast|*|selfdescribed-null|panic",                                                          // e.g. selfdescribed-null@/PrevMSP a467507265764d5350d9..64726f777302(579)
-	"redistribute/redistribute.Round2P2P|*|selfdescribed-null|panic",                                                                // e.g. selfdescribed-null@/NextShareContribution a1754e65787453686172..6f6ed9d9f7f6(27)
-	"rvole/bbot.Round3P2P|*|selfdescribed-null|panic",                                                                               // e.g. selfdescribed-null@/eta/* a3626d755820f0680ccc..dd23d76d36a0(77063)
-	"rvole/softspoken.Round2P2P|*|selfdescribed-null|panic",                                                                         // e.g. selfdescribed-null@/Eta/* a3624d7558203cdb20b6..443db8b881f2(94823)
-	"schnorrlike.PublicKey|*|selfdescribed-null|panic",                                                                              // e.g. selfdescribed-null@ d9d9f7f6
-	"schnorrlike.Signature|*|selfdescribed-null|panic",                                                                              // e.g. selfdescribed-null@/e a36165d9d9f7f66172a1..af7457216a4a(109)
-	"shamir.Share|*|selfdescribed-null|panic",                                                                                       // e.g. selfdescribed-null@ d9d9f7f6
-	"threshold.Threshold|*|selfdescribed-null|panic",                                                                                // e.g. selfdescribed-null@ d9d9f7f6
-	"znstar.PaillierGroupElement|*|altered-value|panic",                                                                             // e.g. zerobytes@@5015/arithmetic@5008/p/natBytes d91397a26176a2657661..31323d7a21c5(739)
-	"znstar.PaillierGroupElement|*|selfdescribed-null|panic",                                                                        // e.g. selfdescribed-null@@5015/v d91397a26176d9d9f7f6..31323d7a21c5(181)
-	"znstar.PaillierGroupElement|@5015/arithmetic@5008/p/natBytes|missing-field|panic",                                              // e.g. dropkey@@5015/arithmetic@5008/p/natBytes d91397a26176a2657661..31323d7a21c5(664)
-	"znstar.PaillierGroupElement|@5015/arithmetic@5008/p/natBytes|null-field|panic",                                                 // e.g. null@@5015/arithmetic@5008/p/natBytes d91397a26176a2657661..31323d7a21c5(674)
-	"znstar.PaillierGroupElement|@5015/arithmetic@5008/p/natBytes|wrong-type-field|panic",                                           // e.g. emptyarray@@5015/arithmetic@5008/p/natBytes d91397a26176a2657661..31323d7a21c5(674)
-	"znstar.PaillierGroupElement|@5015/arithmetic@5008/p|wrong-type-field|panic",                                                    // e.g. emptymap@@5015/arithmetic@5008/p d91397a26176a2657661..31323d7a21c5(664)
-	"znstar.PaillierGroupElement|@5015/arithmetic@5008/q/natBytes|missing-field|panic",                                              // e.g. dropkey@@5015/arithmetic@5008/q/natBytes d91397a26176a2657661..07062b6171a0(664)
-	"znstar.PaillierGroupElement|@5015/arithmetic@5008/q/natBytes|null-field|panic",                                                 // e.g. null@@5015/arithmetic@5008/q/natBytes d91397a26176a2657661..4279746573f6(674)
-	"znstar.PaillierGroupElement|@5015/arithmetic@5008/q/natBytes|wrong-type-field|panic",                                           // e.g. emptyarray@@5015/arithmetic@5008/q/natBytes d91397a26176a2657661..427974657380(674)
-	"znstar.PaillierGroupElement|@5015/arithmetic@5008/q|wrong-type-field|panic",                                                    // e.g. emptymap@@5015/arithmetic@5008/q d91397a26176a2657661..07062b6171a0(664)
-	"znstar.PaillierGroupElement|@5017/n/natPlus|missing-field|panic",                                                               // e.g. dropkey@@5017/n/natPlus d91399a3616ea06176a2..c73bd33f4e11(872)
-	"znstar.PaillierGroupElement|@5017/n/natPlus|null-field|panic",                                                                  // e.g. null@@5017/n/natPlus d91399a3616ea1676e61..c73bd33f4e11(881)
-	"znstar.PaillierGroupElement|@5017/n|wrong-type-field|panic",                                                                    // e.g. emptymap@@5017/n d91399a3616ea06176a2..c73bd33f4e11(872)
-	"znstar.PaillierGroup|*|selfdescribed-null|panic",                                                                               // e.g. selfdescribed-null@ d9d9f7f6
-	"znstar.PaillierGroup|@5014/p/natPlus|missing-field|panic",                                                                      // e.g. dropkey@@5014/p/natPlus d91396a26170a06171a1..31323d7a21c5(94)
-	"znstar.PaillierGroup|@5014/p/natPlus|null-field|panic",                                                                         // e.g. null@@5014/p/natPlus d91396a26170a1676e61..31323d7a21c5(103)
-	"znstar.PaillierGroup|@5014/p|wrong-type-field|panic",                                                                           // e.g. emptymap@@5014/p d91396a26170a06171a1..31323d7a21c5(94)
-	"znstar.PaillierGroup|@5014/q/natPlus|missing-field|panic",                                                                      // e.g. dropkey@@5014/q/natPlus d91396a26170a1676e61..07062b6171a0(94)
-	"znstar.PaillierGroup|@5014/q/natPlus|null-field|panic",                                                                         // e.g. null@@5014/q/natPlus d91396a26170a1676e61..74506c7573f6(103)
-	"znstar.PaillierGroup|@5014/q|wrong-type-field|panic",                                                                           // e.g. emptymap@@5014/q d91396a26170a1676e61..07062b6171a0(94)
-	"znstar.PaillierGroup|@5016/n/natPlus|missing-field|panic",                                                                      // e.g. dropkey@@5016/n/natPlus d91398a1616ea0
-	"znstar.PaillierGroup|@5016/n/natPlus|null-field|panic",                                                                         // e.g. null@@5016/n/natPlus d91398a1616ea1676e6174506c7573f6
-	"znstar.PaillierGroup|@5016/n|missing-field|panic",                                                                              // e.g. dropkey@@5016/n d91398a0
-	"znstar.PaillierGroup|@5016/n|null-field|panic",                                                                                 // e.g. null@@5016/n d91398a1616ef6
-	"znstar.PaillierGroup|@5016/n|wrong-type-field|panic",                                                                           // e.g. emptymap@@5016/n d91398a1616ea0
-	"znstar.PaillierGroup|@5016|null-field|panic",                                                                                   // e.g. null@@5016 d91398f6
-	"znstar.PaillierGroup|@5016|wrong-type-field|panic",                                                                             // e.g. emptymap@@5016 d91398a0
-	"znstar.PaillierGroup||wrong-type-field|panic",                                                                                  // e.g. emptymap@ a0
-	"znstar.RSAGroupElement|*|altered-value|panic",                                                                                  // e.g. zerobytes@@5011/arithmetic@5007/p/natBytes d91393a26176a2657661..d3dbf57278a7(481)
-	"znstar.RSAGroupElement|*|selfdescribed-null|panic",                                                                             // e.g. selfdescribed-null@@5011/v d91393a26176d9d9f7f6..d3dbf57278a7(181)
-	"znstar.RSAGroupElement|@5011/arithmetic@5007/p/natBytes|missing-field|panic",                                                   // e.g. dropkey@@5011/arithmetic@5007/p/natBytes d91393a26176a2657661..d3dbf57278a7(406)
-	"znstar.RSAGroupElement|@5011/arithmetic@5007/p/natBytes|null-field|panic",                                                      // e.g. null@@5011/arithmetic@5007/p/natBytes d91393a26176a2657661..d3dbf57278a7(416)
-	"znstar.RSAGroupElement|@5011/arithmetic@5007/p/natBytes|wrong-type-field|panic",                                                // e.g. emptyarray@@5011/arithmetic@5007/p/natBytes d91393a26176a2657661..d3dbf57278a7(416)
-	"znstar.RSAGroupElement|@5011/arithmetic@5007/p|wrong-type-field|panic",                                                         // e.g. emptymap@@5011/arithmetic@5007/p d91393a26176a2657661..d3dbf57278a7(406)
-	"znstar.RSAGroup|*|selfdescribed-null|panic",                                                                                    // e.g. selfdescribed-null@@5010/p d91392a26170d9d9f7f6..31323d7a21c5(97)
-	"znstar.RSAGroup|@5010/p/natPlus|missing-field|panic",                                                                           // e.g. dropkey@@5010/p/natPlus d91392a26170a06171a1..31323d7a21c5(94)
-	"znstar.RSAGroup|@5010/p/natPlus|null-field|panic",                                                                              // e.g. null@@5010/p/natPlus d91392a26170a1676e61..31323d7a21c5(103)
-	"znstar.RSAGroup|@5010/p|wrong-type-field|panic",                                                                                // e.g. emptymap@@5010/p d91392a26170a06171a1..31323d7a21c5(94)
-	"znstar.RSAGroup|@5010/q/natPlus|missing-field|panic",                                                                           // e.g. dropkey@@5010/q/natPlus d91392a26170a1676e61..07062b6171a0(94)
-	"znstar.RSAGroup|@5010/q/natPlus|null-field|panic",                                                                              // e.g. null@@5010/q/natPlus d91392a26170a1676e61..74506c7573f6(103)
-	"znstar.RSAGroup|@5010/q|wrong-type-field|panic",                                                                                // e.g. emptymap@@5010/q d91392a26170a1676e61..07062b6171a0(94)
-	"znstar.RSAGroup|@5012/modulus/natPlus|missing-field|panic",                                                                     // e.g. dropkey@@5012/modulus/natPlus d91394a1676d6f64756c7573a0
-	"znstar.RSAGroup|@5012/modulus/natPlus|null-field|panic",                                                                        // e.g. null@@5012/modulus/natPlus d91394a1676d6f64756c7573a1676e6174506c7573f6
-	"znstar.RSAGroup|@5012/modulus|wrong-type-field|panic",                                                                          // e.g. emptymap@@5012/modulus d91394a1676d6f64756c7573a0
-}
+var pinned = []string{}
